@@ -334,7 +334,7 @@ def freq_cases(N, seed):
         out.append({"kind": "freq", "test": kind, "m": 2, "profile": p2, "N": N})
         out.append({"kind": "freq", "test": kind, "m": 2, "profile": p1, "N": N})
     out.append({"kind": "freq", "test": "tie_seat", "profile": p3, "N": N})
-    out.append({"kind": "freq", "test": "tie_elim", "profile": p4, "low": ["C", "D", "E"], "N": N})
+    out.append({"kind": "freq", "test": "tie_elim", "profile": p4, "low": ["C", "D", "E"], "N": max(1000, N // 3)})
     for j, c in enumerate(out):
         c["seed"] = seed * 7919 + j
     return out
